@@ -97,6 +97,17 @@ Hundredths(w) ==
       f == IF Len(fp) = 0 THEN 0 ELSE IF Len(fp) = 1 THEN 10 * DigitVal(fp[1]) ELSE NatOf(fp)
       m == NatOf(ip) * 100 + f
   IN IF w[1] = "-" THEN 0 - m ELSE m
+\* the same value as a pair <<integer part, hundredths>> (both carrying the sign), ordered lexicographically:
+\* lets the enumeration hold numerals near 2^31 whose hundredths would not fit TLC's integers
+Key(w) ==
+  LET b == Body(w)
+      p == DotPos(b)
+      ip == SubSeq(b, 1, p - 1)
+      fp == SubSeq(b, p + 1, Len(b))
+      f == IF Len(fp) = 0 THEN 0 ELSE IF Len(fp) = 1 THEN 10 * DigitVal(fp[1]) ELSE NatOf(fp)
+  IN IF w[1] = "-" THEN [hi |-> 0 - NatOf(ip), lo |-> 0 - f] ELSE [hi |-> NatOf(ip), lo |-> f]
+NLt(x, y) == x.hi < y.hi \/ (x.hi = y.hi /\ x.lo < y.lo)
+NLe(x, y) == NLt(x, y) \/ x = y
 
 (* ---- the numerals of the enumeration (their values are tabulated once) ---- *)
 \* numerals: integers, decimals, negative, equal values spelt differently, adjacent values
@@ -106,27 +117,30 @@ NumQuick == { <<"0">>, <<"-", "0">>, <<"1">>, <<"2">>, <<"9">>, <<"1", "0">>, <<
               <<"9", ".", "9", "9">>, <<"1", "0", ".", "0", "1">>, <<"1", "0", ".", "0">> }
 NumMore == { <<"1", "0", "0">>, <<"9", "9", ".", "9", "9">>, <<"-", "1", ".", "5">>, <<"-", "9", ".", "9", "9">>,
              <<"0", ".", "0", "1">>, <<"-", "0", ".", "0", "1">>, <<"0", ".", "0">>, <<"1", "2", "3", "4", "5", "6">> }
-Nums == IF Wide THEN NumQuick \cup NumMore ELSE NumQuick
+\* neighbours whose relative distance is below 1e-9 (and still exact as binary64): equality must not be approximate
+NumBig == { <<"2", "1", "4", "7", "4", "8", "3", "6", "4", "6">>, <<"2", "1", "4", "7", "4", "8", "3", "6", "4", "7">>,
+            <<"-", "2", "1", "4", "7", "4", "8", "3", "6", "4", "7">>, <<"2", "1", "4", "7", "4", "8", "3", "6", "4", "6", ".", "5">> }
+Nums == IF Wide THEN NumQuick \cup NumMore \cup NumBig ELSE NumQuick \cup NumBig
 \* ranges: ends and probes on, just inside, just outside, far from both ends; equal ends
 RangeQuick == { <<"-", "1">>, <<"9", ".", "9", "9">>, <<"1", "0">>, <<"1", "0", ".", "0">>, <<"1", "0", ".", "0", "1">>,
                 <<"1", "5">>, <<"1", "9", ".", "9", "9">>, <<"2", "0">>, <<"2", "0", ".", "0", "1">> }
 RangeNums == IF Wide THEN RangeQuick \cup { <<"0">>, <<"-", "0", ".", "5">>, <<"2", "0", ".", "0">>, <<"1", "0", "0">>,
                                             <<"-", "1", "0">>, <<"1", "4", ".", "9", "9">> }
              ELSE RangeQuick
-ValueOf == [w \in Nums \cup RangeNums |-> Hundredths(w)]
+ValueOf == [w \in Nums \cup RangeNums |-> Key(w)]
 Val(w) == ValueOf[w]
 
 (* ---- the reference function ---------------------------------------------- *)
 \* a case: k family, op operator, v value word, vl value list (only <all-in>),
 \*         a operand words, lb / rb brackets (only <range-in>)
 NumRel(op, x, y) ==
-  CASE op = "="  -> x >= y          \* legacy: "equal to or greater than"
+  CASE op = "="  -> NLe(y, x)          \* legacy: "equal to or greater than"
     [] op = "==" -> x = y
     [] op = "!=" -> x # y
-    [] op = "<"  -> x < y
-    [] op = "<=" -> x <= y
-    [] op = ">"  -> x > y
-    [] op = ">=" -> x >= y
+    [] op = "<"  -> NLt(x, y)
+    [] op = "<=" -> NLe(x, y)
+    [] op = ">"  -> NLt(y, x)
+    [] op = ">=" -> NLe(y, x)
 StrRel(op, v, w) ==
   CASE op = "s==" -> v = w
     [] op = "s!=" -> v # w
@@ -135,8 +149,8 @@ StrRel(op, v, w) ==
     [] op = "s>"  -> LexLt(w, v)
     [] op = "s>=" -> LexLt(w, v) \/ v = w
 InRange(x, lo, hi, lb, rb) ==
-  /\ (IF lb = "[" THEN x >= lo ELSE x > lo)
-  /\ (IF rb = "]" THEN x <= hi ELSE x < hi)
+  /\ (IF lb = "[" THEN NLe(lo, x) ELSE NLt(lo, x))
+  /\ (IF rb = "]" THEN NLe(x, hi) ELSE NLt(x, hi))
 Meaning(x) ==
   CASE x.op \in NumOps      -> NumRel(x.op, Val(x.v), Val(x.a[1]))
     [] x.op \in StrOps      -> StrRel(x.op, x.v, x.a[1])
@@ -146,7 +160,7 @@ Meaning(x) ==
     [] x.op = "<all-in>"    -> \A i \in 1..Len(x.a) : \E j \in 1..Len(x.vl) : x.vl[j] = x.a[i]
     [] x.op = "<range-in>"  -> InRange(Val(x.v), Val(x.a[1]), Val(x.a[2]), x.lb, x.rb)
 Ref(x) ==
-  IF x.op = "<range-in>" /\ Val(x.a[1]) > Val(x.a[2]) THEN "TypeError"
+  IF x.op = "<range-in>" /\ NLt(Val(x.a[2]), Val(x.a[1])) THEN "TypeError"
   ELSE IF Meaning(x) THEN "true" ELSE "false"
 
 (* ---- bounded families of cases ------------------------------------------- *)
@@ -256,6 +270,8 @@ ASSUME Decimals ==
   /\ Hundredths(<<"-", "0">>) = 0 /\ Hundredths(<<"-", "0", ".", "5">>) = 0 - 50
   /\ Hundredths(<<"1", "0", ".", "0", "1">>) = 1001 /\ Hundredths(<<"9", ".", "9", "9">>) = 999
   /\ Hundredths(<<"1", "2", "3", "4", "5", "6">>) = 12345600
+  /\ \A w \in NumQuick \cup NumMore \cup RangeNums : Key(w).hi * 100 + Key(w).lo = Hundredths(w)
+  /\ \A v \in NumQuick \cup NumMore, w \in NumQuick \cup NumMore : NLt(Key(v), Key(w)) <=> Hundredths(v) < Hundredths(w)
   /\ ~IsNumeral(<<"0", "7">>) /\ ~IsNumeral(<<"1", ".">>) /\ ~IsNumeral(<<".", "5">>) /\ ~IsNumeral(<<"-">>)
   /\ ~IsNumeral(<<"1", ".", "2", "3", "4">>) /\ ~IsNumeral(<<"a">>)
 \* the string order is a strict total order in which a proper prefix comes first
